@@ -66,13 +66,16 @@ impl Regex {
             if c == '^' && i == 0 {
                 continue;
             }
-            if magic_chars.contains(&c) && !escape {
+            // these may make the previous character optional (`?`, `*`, `{0,n}`),
+            // so we erase the last added one
+            if ['?', '*', '{'].contains(&c) && !escape {
+                result = result
+                    .chars()
+                    .take(result.len().saturating_sub(1))
+                    .collect();
                 break;
             }
-            // these may make the previous character optional,
-            // so we erase the last added one
-            if ['?', '*'].contains(&c) && !escape {
-                result = result.chars().take(result.len() - 1).collect();
+            if magic_chars.contains(&c) && !escape {
                 break;
             }
             // escaped alphabetic character means a character class,
